@@ -46,10 +46,11 @@ VARIABLES
   sgen,      \* sgen[k]: generation of the stream object stored in the map under k
   cgen,      \* generation of the checked-out stream
   nreins,    \* number of superseding inserts so far
-  told       \* keys whose end the owner of the queue was told about (FairQueue::on_stream_end -> peer_disconnected)
+  told,      \* keys whose end the owner of the queue was told about (FairQueue::on_stream_end -> peer_disconnected)
+  letgo      \* the checked-out stream was let go of meanwhile (its key removed, or a newer connection registered): it is not put back
 
 vars == <<heap, streams, counter, wslot, wcur, pc, cur, avail, left, closed, reg, fire, notified, joined,
-          removed, delivered, wait, stale, live, npend, exh, nexh, had, conn, sgen, cgen, nreins, told>>
+          removed, delivered, wait, stale, live, npend, exh, nexh, had, conn, sgen, cgen, nreins, told, letgo>>
 gv == <<conn, sgen, cgen, nreins>>
 xv == <<live, npend, exh, nexh, had, gv>>
 
@@ -65,7 +66,7 @@ Init ==
   /\ reg = [k \in Keys |-> 0] /\ fire = [k \in Keys |-> FALSE] /\ notified = FALSE /\ joined = {}
   /\ removed = {} /\ delivered = [k \in Keys |-> 0] /\ wait = [k \in Keys |-> 0] /\ stale = 0
   /\ live = [k \in Keys |-> 0] /\ npend = 0 /\ exh = FALSE /\ nexh = 0 /\ had = [k \in Keys |-> {}]
-  /\ conn = [k \in Keys |-> 0] /\ sgen = [k \in Keys |-> 0] /\ cgen = 0 /\ nreins = 0 /\ told = {}
+  /\ conn = [k \in Keys |-> 0] /\ sgen = [k \in Keys |-> 0] /\ cgen = 0 /\ nreins = 0 /\ told = {} /\ letgo = FALSE
 
 \* ---- other threads ---------------------------------------------------------------------------
 Insert(k) ==       \* QueueInner::insert under the lock (peer_connected)
@@ -79,6 +80,7 @@ Insert(k) ==       \* QueueInner::insert under the lock (peer_connected)
   /\ UNCHANGED <<wslot, pc, cur, avail, left, closed, reg, fire, removed, delivered, wait, stale, npend, exh, nexh, had, gv>>
   /\ UNCHANGED wcur
   /\ UNCHANGED told
+  /\ UNCHANGED letgo
 
 Reinsert(k) ==     \* QueueInner::insert for a key that is still registered: a newer connection supersedes the old one
   /\ nreins < MaxReins /\ k \in joined \ removed /\ counter < MaxTicket /\ ~closed[k]
@@ -94,6 +96,7 @@ Reinsert(k) ==     \* QueueInner::insert for a key that is still registered: a n
   /\ UNCHANGED <<wslot, pc, cur, left, closed, joined, removed, delivered, stale, npend, exh, nexh, had, cgen>>
   /\ UNCHANGED wcur
   /\ UNCHANGED told
+  /\ letgo' = (letgo \/ (cur # <<>> /\ cur[2] = k))          \* QueueInner::let_go_of_polled
 
 Produce(k) ==      \* bytes of one more complete message arrive on k's transport
   /\ k \in joined /\ left[k] > 0 /\ ~closed[k]
@@ -103,6 +106,7 @@ Produce(k) ==      \* bytes of one more complete message arrive on k's transport
   /\ UNCHANGED <<heap, streams, counter, wslot, pc, cur, closed, reg, notified, joined, removed, delivered, wait, stale, xv>>
   /\ UNCHANGED wcur
   /\ UNCHANGED told
+  /\ UNCHANGED letgo
 
 Close(k) ==
   /\ k \in joined /\ ~closed[k]
@@ -111,6 +115,7 @@ Close(k) ==
   /\ UNCHANGED <<heap, streams, counter, wslot, pc, cur, avail, left, reg, notified, joined, removed, delivered, wait, stale, xv>>
   /\ UNCHANGED wcur
   /\ UNCHANGED told
+  /\ UNCHANGED letgo
 
 \* StreamWaker::wake_by_ref with ticket t: queue the event unless k already has a valid one
 WakePush(k, t) ==
@@ -128,6 +133,7 @@ Fire(k) ==         \* StreamWaker::wake_by_ref, under the queue lock
   /\ UNCHANGED <<streams, counter, pc, cur, avail, left, closed, joined, removed, delivered, wait, stale, npend, exh, nexh, had, gv>>
   /\ UNCHANGED wcur
   /\ UNCHANGED told
+  /\ UNCHANGED letgo
 
 \* a source wakes an old clone of a StreamWaker again (late, duplicate or spurious wake-up: allowed by the waker
 \* contract; tokio does it when readiness arrives between registering the waker and re-checking)
@@ -140,6 +146,7 @@ StaleFireT(k, t) ==
   /\ UNCHANGED <<streams, counter, pc, cur, avail, left, closed, reg, fire, joined, removed, delivered, wait, npend, exh, nexh, had, gv>>
   /\ UNCHANGED wcur
   /\ UNCHANGED told
+  /\ UNCHANGED letgo
 StaleFire(k) == \E t \in had[k] : StaleFireT(k, t)
 
 Exhaust ==         \* the receiver task's cooperative budget runs out in the middle of a call
@@ -148,6 +155,7 @@ Exhaust ==         \* the receiver task's cooperative budget runs out in the mid
   /\ UNCHANGED <<heap, streams, counter, wslot, wcur, pc, cur, avail, left, closed, reg, fire, notified, joined, removed,
                  delivered, wait, stale, live, npend, had, gv>>
   /\ UNCHANGED told
+  /\ UNCHANGED letgo
 
 Remove(k) ==       \* QueueInner::remove (peer_disconnected); only while k is not checked out
   /\ AllowRemove /\ k \in streams
@@ -156,6 +164,7 @@ Remove(k) ==       \* QueueInner::remove (peer_disconnected); only while k is no
   /\ UNCHANGED <<heap, counter, wslot, pc, cur, avail, left, closed, reg, fire, notified, joined, delivered, wait, stale, xv>>
   /\ UNCHANGED wcur
   /\ UNCHANGED told
+  /\ letgo' = (letgo \/ (cur # <<>> /\ cur[2] = k))
 
 \* ---- receiver task ---------------------------------------------------------------------------
 Begin ==           \* application calls recv / executor re-polls after a wake
@@ -166,12 +175,14 @@ Begin ==           \* application calls recv / executor re-polls after a wake
   /\ UNCHANGED <<heap, streams, counter, wslot, cur, avail, left, closed, reg, fire, joined, removed, delivered, wait, stale, live, nexh, had, gv>>
   /\ UNCHANGED wcur
   /\ UNCHANGED told
+  /\ UNCHANGED letgo
 
 Cancel ==          \* the recv future is dropped while parked (select!, timeout, proxy); the next call has a new waker
   /\ pc = "parked"
   /\ pc' = "idle" /\ wcur' = FALSE
   /\ UNCHANGED <<heap, streams, counter, wslot, cur, avail, left, closed, reg, fire, notified, joined, removed, delivered, wait, stale, xv>>
   /\ UNCHANGED told
+  /\ UNCHANGED letgo
 
 L1 ==              \* first critical section of one loop iteration (pop_event discards stale entries one by one)
   /\ pc = "l1"
@@ -190,6 +201,7 @@ L1 ==              \* first critical section of one loop iteration (pop_event di
   /\ cgen' = IF pc' = "poll" THEN sgen[cur'[2]] ELSE cgen
   /\ UNCHANGED <<counter, avail, left, closed, reg, fire, notified, joined, removed, delivered, wait, stale, npend, exh, nexh, had, conn, sgen, nreins>>
   /\ UNCHANGED told
+  /\ letgo' = IF pc' = "poll" THEN FALSE ELSE letgo          \* inner.polled = Some((key, conn, false))
 
 PollStream ==      \* stream polled outside the lock with StreamWaker(cur)
   /\ pc = "poll"
@@ -215,7 +227,10 @@ PollStream ==      \* stream polled outside the lock with StreamWaker(cur)
   /\ told' = IF pc' = "l1" /\ cgen = conn[cur[2]] /\ "end_not_reported" \notin Dev /\ cur[2] \notin streams THEN told \cup {cur[2]} ELSE told
   /\ UNCHANGED <<streams, counter, left, closed, joined, removed, delivered, wait, stale, npend, exh, nexh, gv>>
   /\ UNCHANGED wcur
+  /\ UNCHANGED letgo
 
+\* (deviation zombie_putback: the marker is ignored - a stream whose key was removed while it was out is put back, F33)
+LetGo == letgo /\ "zombie_putback" \notin Dev
 Signalled(k) == HasEv(k) \/ (cur # <<>> /\ cur[2] = k)
 
 L2 ==              \* Ready(Some): re-queue with a fresh ticket, put the stream back, return the item
@@ -224,8 +239,9 @@ L2 ==              \* Ready(Some): re-queue with a fresh ticket, put the stream 
          t == IF "stale_ticket" \in Dev THEN cur[1] ELSE counter IN
      /\ heap' = heap \cup {<<t, k, NextDup(t, k)>>}
      /\ live' = [live EXCEPT ![k] = t + 1]            \* push_event: supersedes an event queued by a wake-up inside the window
-     /\ streams' = streams \cup {k}
-     /\ sgen' = IF k \in streams /\ "putback_overwrites" \notin Dev THEN sgen ELSE [sgen EXCEPT ![k] = cgen]   \* a newer stream registered meanwhile is kept
+     \* put_back: not if the stream was let go of while it was out (its key removed, a newer connection registered)
+     /\ streams' = IF LetGo /\ "putback_overwrites" \notin Dev THEN streams ELSE streams \cup {k}
+     /\ sgen' = IF (LetGo \/ k \in streams) /\ "putback_overwrites" \notin Dev THEN sgen ELSE [sgen EXCEPT ![k] = cgen]
      /\ delivered' = [delivered EXCEPT ![k] = @ + 1]
      /\ wait' = [j \in Keys |-> IF j = k THEN 0
                                ELSE IF j \in streams /\ avail[j] > 0 /\ HasEv(j) THEN wait[j] + 1 ELSE wait[j]]
@@ -233,11 +249,12 @@ L2 ==              \* Ready(Some): re-queue with a fresh ticket, put the stream 
   /\ wcur' = FALSE                                   \* the call returns: its future (and waker) is finished
   /\ UNCHANGED <<wslot, avail, left, closed, reg, fire, notified, joined, removed, stale, npend, exh, nexh, had, conn, cgen, nreins>>
   /\ UNCHANGED told
+  /\ letgo' = FALSE
 
 L3 ==              \* Pending: put the stream back; continue with the next event, or yield once every stream had a turn
   /\ pc = "l3"
-  /\ streams' = IF "pending_not_put_back" \in Dev THEN streams ELSE streams \cup {cur[2]}
-  /\ sgen' = IF "pending_not_put_back" \in Dev \/ (cur[2] \in streams /\ "putback_overwrites" \notin Dev) THEN sgen ELSE [sgen EXCEPT ![cur[2]] = cgen]
+  /\ streams' = IF "pending_not_put_back" \in Dev \/ (LetGo /\ "putback_overwrites" \notin Dev) THEN streams ELSE streams \cup {cur[2]}
+  /\ sgen' = IF "pending_not_put_back" \in Dev \/ ((LetGo \/ cur[2] \in streams) /\ "putback_overwrites" \notin Dev) THEN sgen ELSE [sgen EXCEPT ![cur[2]] = cgen]
   /\ cur' = <<>> /\ npend' = npend + 1
   /\ IF "no_yield" \notin Dev /\ npend' > Cardinality(streams')
        THEN /\ pc' = "parked" /\ notified' = (notified \/ heap # {})     \* cx.waker().wake_by_ref() if events remain; return Pending
@@ -245,6 +262,7 @@ L3 ==              \* Pending: put the stream back; continue with the next event
   /\ UNCHANGED <<heap, counter, wslot, avail, left, closed, reg, fire, joined, removed, delivered, wait, stale, live, exh, nexh, had, conn, cgen, nreins>>
   /\ UNCHANGED wcur
   /\ UNCHANGED told
+  /\ letgo' = FALSE
 
 Receiver == Begin \/ L1 \/ PollStream \/ L2 \/ L3
 Other == (\E k \in Keys : Insert(k) \/ Reinsert(k) \/ Produce(k) \/ Close(k) \/ Fire(k) \/ StaleFire(k) \/ Remove(k)) \/ Exhaust
@@ -281,6 +299,8 @@ LiveInHeap == \A k \in Keys : live[k] # 0 => \E e \in heap : e[2] = k /\ e[1] = 
 EndReported == \A k \in joined \ removed :
    (closed[k] /\ avail[k] = 0 /\ k \notin streams /\ ~(cur # <<>> /\ cur[2] = k)) => k \in told
 
+\* a key that was removed has no stream in the map (the checked-out stream of a removed key is not put back)
+RemovedStaysOut == \A k \in removed : k \notin streams
 \* one call of poll_next polls at most (streams + 1) streams that answer Pending before it gives control back
 YieldBound == npend <= Cardinality(Keys) + 1
 
